@@ -79,6 +79,13 @@ def c03 (max : Nat) (h : H) : List String :=
     else if f.content > max then some "C03:frame-above-max"
     else if f.kind == .bad then some "C03:unparsable-frame"
     else none) ++
+  -- what the wire accepted of one Write is all of it or (connection dead) a prefix after which nothing else
+  -- is written: a partial frame followed by further frames corrupts the stream
+  ((idxd h).filterMap fun (i, e) => match e with
+    | .wrp ep n _ =>
+      if n > 0 ∧ (idxd h).any (fun (j, e') => decide (j > i) && match e' with | .wr ep' _ => ep' == ep | _ => false)
+      then some "C03:partial-frame-followed-by-more-frames" else none
+    | _ => none) ++
   ((ops h).filterMap fun o =>
     match endOf h o.c with
     | some (_, .toobig, _) =>
